@@ -110,6 +110,31 @@ theorem C16_text (data tail : Bytes) (h : data.length < 2 ^ 64) :
   have := C16_roundtrip [] (textFrame data) tail ⟨by simp [textFrame, Px.Gen.wsOpText], h, by simp [textFrame]⟩
   simpa [text, Frame.norm, textFrame] using this
 
+/-- **C16 build is repeatable.**  Building the same object again (nothing
+assigned in between, same `secrets.token_bytes` outcome) yields the same bytes
+and the same object: `build` stores nothing but the length it used. -/
+theorem C16_build_idempotent (rnd : Bytes) (s s' : Inst) (raw : Bytes)
+    (h : buildSt rnd s = .ok (s', raw)) : buildSt rnd s' = .ok (s', raw) := by
+  simp only [buildSt] at h
+  split at h
+  · cases h
+  · rename_i raw' hb
+    injection h with h; injection h with h1 h2
+    subst h1; subst h2
+    simp only [buildSt, Option.getD_some, Inst.toFrame] at hb ⊢
+    rw [hb]
+
+/-- An API trap outside the property (no code in the repository does this; the
+web loop `reset()`s, `text()` and the clients build new objects): assigning new
+`data` to an object that was built or parsed before WITHOUT `reset()` keeps the
+old `payload_length`, and the bytes built then do not parse back to the data. -/
+theorem C16_stale_length_witness :
+    ∃ i t j raw, parseSt Inst.fresh [0x81, 0x01, 0x61] = .ok (i, t) ∧
+      buildSt [] { i with data := some [0x62, 0x63] } = .ok (j, raw) ∧
+      raw = [0x81, 0x01, 0x62, 0x63] ∧
+      (parse raw).toOption.map (·.1.data) = some [0x62] := by
+  refine ⟨_, _, _, _, rfl, rfl, rfl, rfl⟩
+
 /-- why `reset()` matters (witness): WITHOUT it the key of an earlier masked
 frame stays visible on a later unmasked one. -/
 theorem C16_no_reset_stale_mask_witness :
